@@ -1,7 +1,7 @@
 #!/bin/bash
 # Runs every seeded mutant against checks in an isolated copy of /repo and /verif (so that /repo
 # itself is never touched and other work can continue).
-#   tools/matrix.sh own|all [tier] [outfile]
+#   tools/matrix.sh own|all [tier] [outfile]      (ONLY='*-m7' restricts the seeded changes by name pattern)
 MODE="${1:-own}"; TIER="${2:-quick}"; OUT="${3:-/tmp/mx/matrix-$MODE-$TIER.tsv}"
 MX=/tmp/mx
 mkdir -p $MX
@@ -15,7 +15,7 @@ cp /verif/harness/Cargo.lock $MX/verif/harness/Cargo.lock
 ALL="C01 C02 C03 C04 C05 C06 C07 C08 C09 C10 C11 C12 C13 C14 C15 C16 C17 C18 C19 C20"
 ( cd $MX/verif && ./check --setup >/dev/null 2>&1 )
 for d in /verif/seeded/*/; do
-  n=$(basename $d); prop=$(python3 -c "import json;print(json.load(open('$d/meta.json'))['property'])")
+  n=$(basename $d); case "$n" in ${ONLY:-*}) ;; *) continue ;; esac; prop=$(python3 -c "import json;print(json.load(open('$d/meta.json'))['property'])")
   if [ "$MODE" = own ]; then checks="$prop"; else checks="$ALL"; fi
   git -C $MX/repo checkout -- . ; git -C $MX/repo clean -fdq
   git -C $MX/repo apply $d/patch.diff || { echo -e "$n\t-\tpatch-failed" >> $OUT; continue; }
